@@ -1,0 +1,28 @@
+//go:build verif
+
+package embedded
+
+import "github.com/zenon-network/go-zenon/common/types"
+
+// VerifRemoveMethod deletes a method from every spork table of a contract - what a spork that retires a method
+// would do (see the comment in vm.generateEmbeddedReceive) - and returns the function that restores it.
+func VerifRemoveMethod(address types.Address, name string) (restore func()) {
+	type saved struct {
+		impl *embeddedImplementation
+		m    Method
+	}
+	var s []saved
+	for _, tbl := range []map[types.Address]*embeddedImplementation{originEmbedded, acceleratorEmbedded, bridgeAndLiquidityEmbedded, htlcEmbedded} {
+		if impl, ok := tbl[address]; ok {
+			if m, ok := impl.m[name]; ok {
+				s = append(s, saved{impl, m})
+				delete(impl.m, name)
+			}
+		}
+	}
+	return func() {
+		for _, x := range s {
+			x.impl.m[name] = x.m
+		}
+	}
+}
